@@ -114,6 +114,8 @@ class Interp:
         self.w("i%d" % env["loops"][-1][0])
 
     def n_for(self, n, env):
+        if n.get("c") is not None:
+            self.callout(n["c"])  # the iterable expression, evaluated before the loop context exists
         st = [0]
         env["loops"].append(st)
         self.active.append("for")
